@@ -68,10 +68,26 @@ func (f *Finding) appliesTo(p string) bool {
 	return false
 }
 
+// evidPath: /verif/evidence/..., or a private directory when VERIF_REPO points the
+// build at a scratch copy of the repository (seed testing in parallel; never used by
+// the registered commands).
+func evidPath(parts ...string) string {
+	base := filepath.Join(verifDir, "evidence")
+	if altRepo != "" {
+		base = filepath.Join(workDir, "alt", fmt.Sprint(os.Getpid()), "evidence")
+	}
+	return filepath.Join(append([]string{base}, parts...)...)
+}
+
+var altRepo = ""
+
 func main() {
 	if v := os.Getenv("VERIF_DIR"); v != "" {
 		verifDir = v
 		workDir = filepath.Join(v, ".work")
+	}
+	if v := os.Getenv("VERIF_REPO"); v != "" && v != "/repo" {
+		altRepo = v
 	}
 	if len(os.Args) < 2 {
 		fmt.Fprintln(os.Stderr, "usage: orch <property> [quick|thorough] | orch <property> --replay <path>")
@@ -277,8 +293,8 @@ func (v *Verdict) finish(runs []*Run, keep *bool) int {
 	}
 
 	// replay files
-	os.MkdirAll(filepath.Join(verifDir, "evidence", "replay"), 0o755)
-	if old, _ := filepath.Glob(filepath.Join(verifDir, "evidence", "replay", fmt.Sprintf("%s-%s-s%d-*.json", prop, tier, seed))); len(old) > 0 {
+	os.MkdirAll(evidPath("replay"), 0o755)
+	if old, _ := filepath.Glob(evidPath("replay", fmt.Sprintf("%s-%s-s%d-*.json", prop, tier, seed))); len(old) > 0 {
 		for _, o := range old {
 			os.Remove(o)
 		}
@@ -292,7 +308,7 @@ func (v *Verdict) finish(runs []*Run, keep *bool) int {
 		if i >= 10 {
 			break
 		}
-		rp := filepath.Join(verifDir, "evidence", "replay", fmt.Sprintf("%s-%s-s%d-%d.json", prop, tier, seed, i))
+		rp := evidPath("replay", fmt.Sprintf("%s-%s-s%d-%d.json", prop, tier, seed, i))
 		rec := map[string]interface{}{"property": prop, "tier": tier, "seed": seed, "violation": x}
 		if r := runByName[x.Run]; r != nil {
 			rec["run"] = r
@@ -451,10 +467,10 @@ func writeEvidence(v *Verdict, total int, kf []map[string]interface{}) {
 		"violations":  total,
 	}
 	b, _ := json.MarshalIndent(ev, "", " ")
-	os.MkdirAll(filepath.Join(verifDir, "evidence"), 0o755)
-	tmp := filepath.Join(verifDir, "evidence", prop+".json.tmp")
+	os.MkdirAll(evidPath(), 0o755)
+	tmp := evidPath(prop+".json.tmp")
 	os.WriteFile(tmp, b, 0o644)
-	os.Rename(tmp, filepath.Join(verifDir, "evidence", prop+".json"))
+	os.Rename(tmp, evidPath(prop+".json"))
 }
 
 func doReplay(path string) int {
